@@ -91,6 +91,7 @@ class C05(PoolScenario):
     wall_caps = {"quick": 110, "thorough": 1500}
     ops = {"new": 1, "fill": 10, "fillnumpy": 6, "add": 3, "iadd": 2, "mul": 2, "copy": 1, "zero": 0.5, "ship": 2, "iadd_many": 0.25}
     odd_row_weights = 0.08
+    inf_row_weights = 0.03
     fill_reloaded_too = True
     spec_opts = {"count_same_transform": 0.1}
     rule = ("one run = one operation history over a pool of aggregators owned by three tasks (fill, fill.numpy with "
